@@ -101,7 +101,8 @@ def _store_records(store, g90e):
 def run_plugin_history(hist, trace_id, keep_state=True):
     """Execute a history on a fresh PluginRig; return the trace record."""
     from harness.rig import PluginRig, alpha_region, nat, result_shape
-    rig = PluginRig(g90e=hist.g90e)
+    # every log statement live in every second history (behaviour must not depend on it)
+    rig = PluginRig(g90e=hist.g90e, debug=bool((getattr(hist, "seed", 0) or 0) % 2))
     rig.notifications()
     plugin = rig.plugin
     store = {"clearAfter": False, "mayShrink": False, "enter": [], "exit": [],
@@ -144,7 +145,7 @@ def run_plugin_history(hist, trace_id, keep_state=True):
         elif kind == "pev":
             event = {"ev": "pev", "name": step[1]}
             try:
-                rig.event(step[1])
+                rig.event(step[1], step[2] if len(step) > 2 else None)
             except Exception as err:  # pylint: disable=broad-except
                 event["exc"] = type(err).__name__
             if step[1] == "SettingsUpdated" and "at" in store:
